@@ -112,6 +112,9 @@ class Ser:
                 return m['Constant'](s[1])
             if h == 'sym':
                 return m['Symbol'](s[1], real=True) if s[1] in COORDS else m['Symbol'](s[1])
+            if h == 'normal':
+                cname, _, nm = s[1].partition(':')
+                return m[cname](nm)
             raise KeyError('unknown atom %r' % (k,))
         if h == 'idx':
             return self.build(s[1])[int(s[2])]
